@@ -6,6 +6,8 @@ use std::time::Instant;
 mod c03;
 mod c04;
 mod c05;
+mod c12;
+mod c19;
 mod curves;
 mod model;
 
@@ -16,6 +18,9 @@ fn main() {
         "C03" => (c03::items(&args), c03::RULE),
         "C04" => (c04::items(&args), c04::RULE),
         "C05" => (c05::items(&args), c05::RULE),
+        "C12" => (c12::items(&args), c12::RULE),
+        "C19" => (c19::items(&args), c19::RULE),
+        "C11" => (c12::items_c11(&args), c12::RULE_C11),
         p => panic!("mon_ec does not serve property {p}"),
     };
     let rep = run_items(&args, items);
